@@ -36,7 +36,71 @@ fn part(dialect: Dialect) -> BoxedStrategy<Case04> {
         .boxed()
 }
 
+/// flag q: the replacement is literal, so spans cannot be marked; the cross-API relations that remain are checked
+fn check_partition_literal(case: &Case04, ctx: &mut Ctx) -> Verdict {
+    let m = case.ast.materialize(Dialect::XPath, EXTRA);
+    // the literal: the letters of the generated pattern's alphabet (so that inputs contain it)
+    let lit: String = m.node.alphabet().into_iter().filter(|c| c.is_alphanumeric()).take(2).collect();
+    if lit.is_empty() {
+        return Verdict::Skip("no-literal");
+    }
+    let mut inputs = m.inputs.clone();
+    inputs.push(String::new());
+    inputs.push(format!("{lit}z{}{lit}", lit.to_uppercase()));
+    let mut job = Job::new(Dialect::XPath, &lit, &case.ast.flags);
+    job.inputs = inputs.clone();
+    job.replacements = vec![case.rep.clone()];
+    let out = match ctx.w.run(&job) {
+        JobResult::Done(o) => o,
+        JobResult::Hang => return Verdict::Skip("hang"),
+        JobResult::Died(_) => return Verdict::Skip("died"),
+    };
+    if out.compile.ok().is_none() {
+        return Verdict::Skip("compile_err");
+    }
+    ctx.obs.label("dialect=xpath,flag-q");
+    for (i, input) in inputs.iter().enumerate() {
+        let io = &out.per_input[i];
+        let (rep, tok, ana) = match (&io.replace[0], io.tokens.as_ref().unwrap(), io.analyze.as_ref().unwrap()) {
+            (Res::Ok(r), Res::Ok(t), Res::Ok(a)) if t.panic.is_none() && a.panic.is_none() && !t.capped && !a.capped => (r, t, a),
+            _ => return Verdict::Skip("panic-or-error"),
+        };
+        ctx.obs.eval(3);
+        let fail = |sub: &str, expected: String, actual: String| {
+            Verdict::Fail(Failure { sub: sub.into(), expected, actual, detail: format!("literal pattern={lit:?} flags={:?} input={input:?} rep={:?}", case.ast.flags, case.rep) })
+        };
+        if analyze_text(&ana.items) != *input {
+            return fail("analyze-concat", format!("{input:?}"), format!("{:?}", analyze_text(&ana.items)));
+        }
+        let cs = chars(input);
+        let spans = analyze_spans(&ana.items);
+        let mut expect_tokens: Vec<String> = vec![];
+        if !cs.is_empty() {
+            let mut p = 0;
+            for (s, e) in &spans {
+                expect_tokens.push(cs[p..*s].iter().collect());
+                p = *e;
+            }
+            expect_tokens.push(cs[p..].iter().collect());
+        }
+        if tok.items != expect_tokens {
+            return fail("tokens-vs-analyze", format!("{expect_tokens:?}"), format!("{:?}", tok.items));
+        }
+        let joined = if cs.is_empty() { String::new() } else { expect_tokens.join(&case.rep) };
+        if *rep != joined {
+            return fail("replace-plain-vs-tokens", format!("{joined:?}"), format!("{rep:?}"));
+        }
+        if spans.len() >= 2 {
+            ctx.obs.nontrivial(&(&lit, &case.ast.flags, input));
+        }
+    }
+    Verdict::Pass
+}
+
 pub fn check_partition(case: &Case04, ctx: &mut Ctx) -> Verdict {
+    if case.ast.flags.contains('q') {
+        return check_partition_literal(case, ctx);
+    }
     let m = case.ast.materialize(case.dialect, EXTRA);
     // forced inputs: empty, and the generated ones
     let mut inputs = m.inputs.clone();
@@ -150,7 +214,15 @@ impl Prop for C04 {
         "C04"
     }
     fn parts(&self, tier: Tier) -> Vec<Part<Case04>> {
+        let q = part(Dialect::XPath)
+            .prop_flat_map(|c| (Just(c), prop::sample::select(vec!["q", "qi", "iq", "qis", "qx"])))
+            .prop_map(|(mut c, f)| {
+                c.ast.flags = f.to_string();
+                c
+            })
+            .boxed();
         vec![
+            Part { name: "literal-flag-q".into(), strategy: q, cases: tier.pick(30_000, 300_000) },
             Part { name: "xpath".into(), strategy: part(Dialect::XPath), cases: tier.pick(150_000, 3_000_000) },
             Part { name: "xsd".into(), strategy: part(Dialect::Xsd), cases: tier.pick(50_000, 1_000_000) },
         ]
